@@ -15,6 +15,18 @@ CLAIMED = {
  "C20": ("Hypothesis property-based testing over merge histories (stateful in effect: invariant after every step); oracle = PE interpreter vs kernel body on corner + drawn data vectors, count agreement across APIs; small alphabet enumerated exhaustively",
          "Generated histories of 1..5 (thorough 1..8) kernels are merged with the real encode/combine API; after every merge every kernel merged so far is decoded and the merged PE, configured with the decoded switches, is evaluated against the kernel's own body. Exploration level with an exhaustive small sub-space.",
          TRUST + " PE semantics (choose index, mux polarity) taken from the repository's own finalize-phs-to-hw lowering; decode's exponential search is cut at 11 muxes.", "4/C20"),
+ "C06": ("Hypothesis property-based testing of generated accfg programs; oracle = differential execution (deduplicated input vs after accfg-config-overlap) on the CSR machine + own SSA dominance walk",
+         "Generated programs are traced and deduplicated with the real passes (the form the property names), then accfg-config-overlap is applied; both are executed for 3 input vectors each. Launch/await/call order, launch values and the registers each launch observes must agree; a use of a not-yet-available value is detected statically (dominance walk) and dynamically. Exploration level.",
+         TRUST + " Interpreter + CSRMachine; xDSL 0.70 verify() has no dominance check, so the check's own walk is trusted for availability.", "4/C06"),
+ "C07": ("Hypothesis property-based testing; oracle = analysis soundness against concrete executions (infer_state_of at every state-typed value vs the machine's register file) + structural state-link invariant",
+         "Generated untraced programs are traced with the real pass (and in 2/3 of cases deduplicated), executed on the CSR machine, and at every run-time definition of an !accfg.state value (every loop iteration, after loops/ifs, every setup) the real infer_state_of is compared with the registers; every executed setup's in_state must be the really preceding state. Exploration level.",
+         TRUST + " Interpreter + CSRMachine (un-annotated call = registers unknown).", "4/C07"),
+ "C16": ("Hypothesis property-based testing; oracle = exact rational row-space test / re-derived post-conditions on every yielded schedule; matcher compared with the exact test on constructed matching and perturbed pairs; small pairs exhaustively (thorough)",
+         "Every schedule yielded by scheduler_backtrack on generated and realistic (gemmx/alu/xdma-like) template cases is checked for template fit, bounds, and the requested extra constraints, all in exact arithmetic independent of the SVD-based predicate under test; the matcher itself is compared with the exact decision. Exploration level with an exhaustive small sub-space.",
+         TRUST + " Entries restricted to -16..16 and dims <= 5 so float artefacts of the SVD test on inputs no caller produces are not flagged.", "4/C16"),
+ "C19": ("Hypothesis property-based testing; oracles = evaluation equivalence on boxes and random points, idempotence, round trips through the real attribute printer/parser, reference bit packing; small spaces exhaustively",
+         "Six pure-function sub-properties (affine canonicalisation, AffineTransform round trips/compose, AccessPattern canonicalize/inner_dims, StridePattern canonicalize + print/parse, pack_bitlist, StreamerConfigurationAttr print/parse) are each checked on tens of thousands of generated inputs per run against independent reference evaluators. Exploration level.",
+         TRUST + " One known finding (xDMA system type lost in the streamer-config text) is classified by a narrow signature.", "4/C19"),
  "C03": ("Hypothesis property-based testing; oracle = iteration-multiset invariant (numpy enumeration); exhaustive enumeration of a small sub-space in thorough",
          "Random and (thorough) exhaustive-small search over schedules, templates and transformation chains; every yielded schedule of the backtracking scheduler is compared with the input as a multiset of operand-index tuples. Exploration is the right level: the functions are pure and cheap, so tens of thousands of cases per run are possible, but the input space is unbounded.",
          TRUST + " Iteration box semantics taken from the SchedulePattern docstrings.", "4/C03"),
